@@ -29,6 +29,9 @@ def main(tier, replay=None):
     n = 60 if quick else 600
     camp.run([], [gcgen.random_program(rng, nobj=rng.choice([12, 30, 60]), nops=rng.choice([80, 200, 400])) for _ in range(n)], "random")
     camp.run([], [gcgen.random_program(rng, nobj=40, nops=300, kinds=[k]) for k in gcgen.PLAIN for _ in range(2 if quick else 10)], "random/onekind")
+    # objects of a type with its own Alloc instance hold the references (placed by the type: known to the collector all the same)
+    camp.run([], [gcgen.random_program(rng, nobj=rng.choice([12, 30]), nops=rng.choice([80, 200]), arena=arena_slots(rng, 60),
+                                       kinds=["Node", "Node", "Node", "Ref", "Array", "Box"]) for _ in range(max(6, n // 6))], "random/own-allocator")
     camp.run([], [gcgen.chain_program(m, k) for k in ("Ref", "Node") for m in ((50, 400) if quick else (50, 400, 1500))], "chain")
     camp.run([], [["reset", "chain %d %s" % (m, k)] for k in ("Ref", "Node") for m in ((3000, 20000) if quick else (1000, 5000, 20000, 30000))],
              "longchain")
